@@ -4,6 +4,9 @@ let int_of_n = function N0 -> 0 | Npos p -> int_of_pos p
 let rec pos_of_int n = if n = 1 then XH else if n land 1 = 0 then XO (pos_of_int (n lsr 1)) else XI (pos_of_int (n lsr 1))
 let n_of_int n = if n = 0 then N0 else Npos (pos_of_int n)
 let rec int_of_nat = function O -> 0 | S n -> 1 + int_of_nat n
+let rec bits_of_pos = function XH -> "1" | XO p -> bits_of_pos p ^ "0" | XI p -> bits_of_pos p ^ "1"
+let rec pos_small p k = k > 0 && (match p with XH -> true | XO q | XI q -> pos_small q (k-1))
+let num = function N0 -> "0" | Npos p -> if pos_small p 60 then string_of_int (int_of_pos p) else "b" ^ bits_of_pos p
 let str s = if s = [] then "e" else String.concat "," (List.map (fun c -> string_of_int (int_of_n c)) s)
 let ostr = function None -> "-" | Some s -> str s
 let mark m = Printf.sprintf "%d %d %d" (int_of_nat m.m_index) (int_of_nat m.m_line) (int_of_nat m.m_col)
@@ -11,7 +14,7 @@ let style = function SPlain -> "plain" | SSingle -> "'" | SDouble -> "\"" | SLit
 let b x = if x then "1" else "0"
 let kind = function
   | VStreamStart -> "StreamStart" | VStreamEnd -> "StreamEnd"
-  | VDocStart (ex, v, tags) -> "DocumentStart " ^ b ex ^ " " ^ (match v with None -> "-" | Some (a, c) -> str a ^ "." ^ str c) ^ " " ^
+  | VDocStart (ex, v, tags) -> "DocumentStart " ^ b ex ^ " " ^ (match v with None -> "-" | Some (a, c) -> num a ^ "." ^ num c) ^ " " ^
       String.concat ";" (List.map (fun (h, p) -> str h ^ "=" ^ str p) tags)
   | VDocEnd ex -> "DocumentEnd " ^ b ex
   | VAlias a -> "Alias " ^ str a
